@@ -392,11 +392,12 @@ func c15CellMap(o c15Out, dir string) (map[string]string, error) {
 				m[key] = fmt.Sprintf("%s|%s|%s|%s|%q|%q", cell.Center, cell.CI, cell.Delta, cell.P, cw, dw)
 			}
 		}
-		for e := range t.Cols {
-			gw := append([]string(nil), t.GeoWarn[e]...)
-			sort.Strings(gw)
-			m[tid+" || geomean || "+bsgen.ValueSet(t.Cols[e]...)] = fmt.Sprintf("%.12s|%s|%q", t.GeoCenter[e], t.GeoDelta[e], gw)
-		}
+		// The geomean row is deliberately left out: it is not a cell, it is
+		// accumulated over the rows in row order (floating-point summation is
+		// not associative, and with infinite centres go-moremath's GeoMean
+		// yields +Inf or NaN depending on the order), and the statement allows
+		// the order of rows to change. (False alarm corrected: thorough seed 2
+		// fired on a column holding an injected +Inf measurement.)
 	}
 	return m, nil
 }
